@@ -303,11 +303,28 @@ def rule_abstract(ck):
     """D5: every class that is instantiated overrides the abstract methods of its bases"""
     repo = ck.repo
     need = {"deferred::BaseDeferred": ["_wait", "get_current_best_estimate", "__repr__"], "types::ExpressionToken": ["resolve"], "types::Token": ["__eq__"]}
+    # names used as values somewhere (called, subscripted-and-called, passed on): a class that only ever appears as a base of other
+    # classes or as the second argument of isinstance() is an abstract intermediate and is never instantiated
+    used = set()
+    for m_ in repo.modules.values():
+        for n_ in ast.walk(m_.tree):
+            if isinstance(n_, ast.Name) and isinstance(n_.ctx, ast.Load):
+                par = getattr(n_, "_parent", None)
+                if isinstance(par, ast.ClassDef) and n_ in par.bases:
+                    continue
+                if isinstance(par, ast.Call) and isinstance(par.func, ast.Name) and par.func.id in ("isinstance", "issubclass") and len(par.args) == 2 and (par.args[1] is n_):
+                    continue
+                if isinstance(par, ast.Tuple) and isinstance(getattr(par, "_parent", None), ast.Call) and getattr(par._parent.func, "id", "") in ("isinstance", "issubclass"):
+                    continue
+                used.add(n_.id)
     for base, methods in need.items():
         for q in repo.subclasses(base):
             if q == base or q in ("types::ExpressionToken", "operators::operator.Class"):
                 continue
             node = repo.cls(q)
+            if node.name not in used and any(s_ != q for s_ in repo.subclasses(q)):
+                ck.instance(("abstract", q, "intermediate"), {"class": q, "never instantiated": True}, fn=q)
+                continue
             abstract_like = q in ("operators::InfixOperator", "operators::UnaryOperator", "operators::PrefixOperator", "operators::PostfixOperator")
             for m in methods:
                 impl = repo.find_method(q, m)
